@@ -423,3 +423,55 @@ def _cg_switches():
 CG16 = _cg_switches()
 globals().update(CG16)
 CG16_CONTRACTS = [("contracts.exact", n) for n in CG16]
+
+
+# ------------------------------------------------------------------------------------------------ C19: CBLDM argument validation
+class CbldmArguments(FunctionContract):
+    """cbldm raises ValueError for numbins != 2, a negative item, a non-positive time limit, a cardinality bound that is not a positive
+    integer - and for nothing else; all arguments symbolic (T2 over the number of items)."""
+    target = "prtpy/partitioning/cbldm.py::cbldm"
+    tier = "T2"
+    min_obligations = 2
+    unroll_limit = 200
+    expect_raise = ("ValueError",)
+    crosscheck = False
+
+    def shapes(self, level):
+        return [(n, pd) for n in ((1, 2) if level == "quick" else (1, 2, 3)) for pd in ("int", "real", "default")]
+
+    def shape_text(self, s):
+        return f"n={s[0]} items (any real values), numbins / time_limit symbolic, partition_difference {s[1]}"
+
+    def make_args(self, it, shape):
+        n, pd = shape
+        self._shape = shape
+        xs = [ItemV(z3.Const(f"x{i}", L.Item)) for i in range(n)]
+        k, T = z3.Int("numbins"), z3.Real("time_limit")
+        cls = it.get_function("prtpy/binners.py::BinnerKeepingSums")
+        args = {"binner": it.instantiate(cls, [VALUEOF], {}), "numbins": SV(k), "items": PList(list(xs)), "time_limit": SV(T)}
+        self._xs, self._k, self._T = xs, k, T
+        it.concretize_ranges = True
+        self._pd = None
+        if pd == "int":
+            self._pd = z3.Int("partition_difference")
+            args["partition_difference"] = SV(self._pd)
+        elif pd == "real":
+            self._pd = z3.Real("partition_difference")
+            it.assume(z3.ToReal(z3.ToInt(self._pd)) != self._pd)          # a genuinely non-integral bound
+            args["partition_difference"] = SV(self._pd)
+        return args
+
+    def post(self, c, kind, res):
+        n, pd = self._shape
+        invalid = [self._k != 2, self._T <= 0, z3.Or([L.val(x.t) < 0 for x in self._xs])]
+        if pd == "int":
+            invalid.append(self._pd < 1)
+        elif pd == "real":
+            invalid.append(z3.BoolVal(True))
+        bad = z3.Or(invalid)
+        if kind == "raise":
+            return [("C19:ValueError-only-for-a-malformed-request", z3.And(z3.BoolVal(res.cls == "ValueError"), bad))]
+        return [("C19:a-malformed-request-is-never-answered", z3.Not(bad))]
+
+
+cbldm_arguments = CbldmArguments()
